@@ -94,8 +94,16 @@ pub open spec fn not_modified_s(etag: Option<HeaderValue>, h: &HeaderMap, lm: Op
 
 broadcast use stub::http_date_whole_second;
 
+//@fn src/serving.rs :: fn truncate_to_second props=C04,C14 implicit=C13
+fn truncate_to_second(t: SystemTime) -> (r: SystemTime)
+    requires t.nanos < 1_000_000_000,
+    ensures /*@C04,C14 #truncates_to_whole_second*/ r.secs == t.secs && r.nanos == 0,
+//@body
+//@end
+
 //@fn src/serving.rs :: fn parse_modified_hdrs props=C04,C14 implicit=C13 rules=R7,R13
 fn parse_modified_hdrs(etag: &Option<HeaderValue>, req_hdrs: &HeaderMap, last_modified: Option<SystemTime>) -> (res: Result<(bool, bool), &'static str>)
+    requires last_modified matches Some(m) ==> m.nanos < 1_000_000_000,
     ensures
         /*@C04,C14 #precondition_failed_per_rfc7232*/ well_formed(*etag, req_hdrs, last_modified) ==> (res matches Ok(p) && p.0 == precondition_failed_s(*etag, req_hdrs, last_modified)),
         /*@C04,C14 #not_modified_per_rfc7232*/ well_formed(*etag, req_hdrs, last_modified) ==> (res matches Ok(p) && p.1 == not_modified_s(*etag, req_hdrs, last_modified)),
